@@ -522,7 +522,7 @@ fn rendezvous_drops(rep: &mut Report, pairs: usize, rounds: usize, seed: u64) {
                 n
             }));
         }
-        let cycles = 6 + (rounds / 40_000).min(20);
+        let cycles = 24 + (rounds / 10_000).min(60);
         for c in 0..cycles {
             let held: Vec<SharedString> = (0..[700usize, 1500, 4000][c % 3])
                 .map(|i| {
